@@ -22,7 +22,7 @@
    and the code ignores Some(None) for royalties anyway, so the message carries a plain
    option: None = leave unchanged. *)
 From LP Require Export Num Pay Sg1.
-From LP Require Import Consts.
+From LP Require Import Consts Semver.
 
 (* ------------------------------------------------------------------ vocabulary *)
 Inductive ctype := Base | Updatable | Onchain | NT.
@@ -399,10 +399,6 @@ Definition instantiate (ct : ctype) (nw : N) (sender_is_contract : bool) (fs : l
   else Ok (mkSt [] 0 [] (mkOwn (Some minter) None None) c false nw false
                 (match ct with Updatable => true | _ => false end)).
 
-(* sg721-updatable migrate coming from an sg721-base contract of the same workspace
-   version: both metadata flags are initialised to false (so EnableUpdatable is payable) *)
-Definition migrate_base_to_updatable (s : state) : state := set_md s false false.
-
 (* a failed call leaves the state alone; histories skip it like the chain does *)
 Definition apply (ct : ctype) (self : addr) (s : state) (eo : env * op) : state :=
   match step ct self (fst eo) (snd eo) s with
@@ -412,6 +408,93 @@ Definition apply (ct : ctype) (self : addr) (s : state) (eo : env * op) : state 
 
 Definition run (ct : ctype) (self : addr) (s : state) (l : list (env * op)) : state :=
   fold_left (apply ct self) l s.
+
+(* ------------------------------------------------------------------ deployed contract, migration *)
+(* The wasm admin can swap the code of a deployed collection for the sg721-updatable code
+   (sg721-base exports no migrate entry point, so it is never a migration target; the
+   sg721-nt / metadata-onchain migrations are outside this model).  What the
+   sg721-updatable `_migrate` does depends on the cw2 record (contract name, version):
+     contracts/collections/sg721-updatable/src/contract.rs  _migrate
+     contracts/collections/sg721-base/src/upgrades/{v3_0_0,v3_1_0}.rs *)
+Inductive cwname :=
+| NBase          (* "crates.io:sg721-base" *)
+| NBaseLegacy    (* "sg721-base" *)
+| NUpd           (* "crates.io:sg721-updatable" *)
+| NUpdLegacy     (* "sg721-updatable" *)
+| NOther (k : N) (* anything else, e.g. the nt / metadata-onchain names *).
+
+Definition cwname_eqb (a b : cwname) : bool :=
+  match a, b with
+  | NBase, NBase | NBaseLegacy, NBaseLegacy | NUpd, NUpd | NUpdLegacy, NUpdLegacy => true
+  | NOther x, NOther y => x =? y
+  | _, _ => false
+  end.
+
+Definition name_of (ct : ctype) : cwname :=
+  match ct with Base => NBase | Updatable => NUpd | Onchain => NOther 1 | NT => NOther 2 end.
+
+(* COMPATIBLE_CONTRACT_NAMES_FOR_MIGRATION *)
+Definition compatible_name (n : cwname) : bool := match n with NOther _ => false | _ => true end.
+(* ["sg721-base", "crates.io:sg721-base"]: the names whose state lacks the two flags *)
+Definition is_base_name (n : cwname) : bool := match n with NBase | NBaseLegacy => true | _ => false end.
+
+Definition CUR_VERSION : version := workspace_version_triple.
+Definition EARLIEST_VERSION : option version := parse_version sg721_updatable__EARLIEST_COMPATIBLE_VERSION.
+
+Record deployed := mkDep {
+  d_ct : ctype;            (* the code the contract currently runs *)
+  d_admin : addr;          (* wasm admin, fixed at instantiation *)
+  d_name : cwname;         (* cw2 contract name *)
+  d_ver : version;         (* cw2 version *)
+  d_st : state }.
+
+Definition with_state (d : deployed) (s : state) : deployed :=
+  mkDep (d_ct d) (d_admin d) (d_name d) (d_ver d) s.
+
+(* _migrate of sg721-updatable.  Versions below 3.0.0 run cw721-base's 0.16 -> 0.17 step,
+   which loads the legacy `minter` item; a contract created by the current code has none,
+   so that step fails (stated bound: no pre-3.0.0 storage layouts).  Versions below 3.1.0
+   get royalty_updated_at := now - 24 h (minus_seconds: strict_sub on u64). *)
+Definition migrate_to_updatable (nw : N) (d : deployed) : result deployed :=
+  let v := d_ver d in
+  match EARLIEST_VERSION with
+  | None => Err
+  | Some v0 =>
+      if negb (compatible_name (d_name d)) then Err
+      else if ver_ltb v v0 then Err
+      else if ver_ltb CUR_VERSION v then Err
+      else if ver_eqb v CUR_VERSION && cwname_eqb (d_name d) NUpd then Err
+      else
+        let s1 := if is_base_name (d_name d) then set_md (d_st d) false false else d_st d in
+        if ver_ltb v (3, 0, 0) then Err
+        else
+          do s2 <- (if ver_ltb v (3, 1, 0)
+                    then if nw <? DAY_NS then Err else Ok (set_info s1 (info s1) (nw - DAY_NS))
+                    else Ok s1);
+          Ok (mkDep Updatable (d_admin d) NUpd CUR_VERSION s2)
+  end.
+
+Inductive action := ACall (o : op) | AMigrate.
+
+(* one transaction: a call of the contract, or a MsgMigrateContract to the updatable code
+   (the chain lets only the admin migrate) *)
+Definition dstep (self : addr) (e : env) (a : action) (d : deployed) : result (deployed * list bmsg) :=
+  match a with
+  | ACall o => do r <- step (d_ct d) self e o (d_st d); Ok (with_state d (fst r), snd r)
+  | AMigrate =>
+      if d_admin d =? sender e
+      then do d' <- migrate_to_updatable (now e) d; Ok (d', [])
+      else Err
+  end.
+
+Definition dapply (self : addr) (d : deployed) (ea : env * action) : deployed :=
+  match dstep self (fst ea) (snd ea) d with
+  | Ok (d', _) => d'
+  | Err => d
+  end.
+
+Definition drun (self : addr) (d : deployed) (l : list (env * action)) : deployed :=
+  fold_left (dapply self) l d.
 
 (* ------------------------------------------------------------------ royalty payout helper *)
 (* CollectionInfoResponse::royalty_payout: Uint128 * Decimal is multiply_ratio (floor,
@@ -434,8 +517,9 @@ Definition royalty_payout (roy : option royalty) (payment protocol_fee : N) (fin
 
 (* ------------------------------------------------------------------ observations *)
 (* what the queries return: CollectionInfo; NumTokens; AllTokens with OwnerOf
-   (include_expired) and NftInfo per token; Minter / Ownership; AllOperators
-   (include_expired) of every tracked account; the two sg721-updatable flags *)
+   (include_expired) and NftInfo per token; Minter / Ownership (sg721-updatable has no
+   Ownership query: only the owner is visible there); AllOperators (include_expired) of
+   every tracked account; the two sg721-updatable flags; the cw2 record *)
 Record obs := mkObs {
   ob_info : cinfo;
   ob_count : N;
@@ -443,12 +527,18 @@ Record obs := mkObs {
   ob_own : ownership;
   ob_ops : list ((addr * addr) * expiration);
   ob_md_frozen : bool;
-  ob_md_enabled : bool }.
+  ob_md_enabled : bool;
+  ob_name : cwname;
+  ob_ver : version }.
 
-Definition obs_of (ct : ctype) (s : state) : obs :=
-  mkObs (info s) (token_count s) (tokens s) (own s) (operators s)
-        (match ct with Updatable => md_frozen s | _ => false end)
-        (match ct with Updatable => md_enabled s | _ => false end).
+Definition obs_of (d : deployed) : obs :=
+  let s := d_st d in
+  mkObs (info s) (token_count s) (tokens s)
+        (match d_ct d with Updatable => mkOwn (o_owner (own s)) None None | _ => own s end)
+        (operators s)
+        (match d_ct d with Updatable => md_frozen s | _ => false end)
+        (match d_ct d with Updatable => md_enabled s | _ => false end)
+        (d_name d) (d_ver d).
 
 Definition exp_eqb (a b : expiration) : bool :=
   match a, b with
@@ -481,25 +571,28 @@ Definition obs_eqb (a b : obs) : bool :=
   && list_eqb entry_eqb (ob_tokens a) (ob_tokens b)
   && own_eqb (ob_own a) (ob_own b)
   && list_eqb opent_eqb (ob_ops a) (ob_ops b)
-  && Bool.eqb (ob_md_frozen a) (ob_md_frozen b) && Bool.eqb (ob_md_enabled a) (ob_md_enabled b).
+  && Bool.eqb (ob_md_frozen a) (ob_md_frozen b) && Bool.eqb (ob_md_enabled a) (ob_md_enabled b)
+  && cwname_eqb (ob_name a) (ob_name b) && ver_eqb (ob_ver a) (ob_ver b).
 
 (* ------------------------------------------------------------------ history replay *)
-(* One recorded call: the inputs, what the implementation answered (ok with the amounts
-   burned and sent to the fair-burn pool, or an error) and, when the queries changed
-   since the previous step, the new observation. *)
+(* One recorded transaction: the inputs, what the implementation answered (ok with the
+   amounts burned and sent to the fair-burn pool, or an error) and, when the queries
+   changed since the previous step, the new observation. *)
 Inductive outcome := Done (burned pooled : N) | Failed.
 
-Record hstep := mkStep { h_env : env; h_op : op; h_out : outcome; h_obs : option obs }.
+Record hstep := mkStep { h_env : env; h_act : action; h_out : outcome; h_obs : option obs }.
 
 Record history := mkHist {
-  h_ct : ctype;
-  h_migrated : bool;                 (* instantiated as sg721-base, then migrated to sg721-updatable *)
+  h_ct : ctype;                      (* the code the collection is instantiated with *)
+  h_migrated : bool;                 (* migrated to sg721-updatable by the admin right after creation *)
   h_self : addr;
+  h_admin : addr;
   h_time0 : N;
   h_sender_is_contract : bool;
   h_funds0 : list coin;
   h_minter : addr;
   h_info0 : cinfo;
+  h_cw2 : option (cwname * version); (* cw2 record overwritten after creation (an older deployment) *)
   h_init : option obs;               (* None: the instantiation was rejected *)
   h_steps : list hstep }.
 
@@ -508,33 +601,35 @@ Definition burned_of (ms : list bmsg) : N :=
 Definition pooled_of (ms : list bmsg) : N :=
   fold_right (fun m acc => match m with FundPool _ _ a => a + acc | _ => acc end) 0 ms.
 
-Fixpoint replay (ct : ctype) (self : addr) (s : state) (l : list hstep) : bool :=
+Fixpoint replay (self : addr) (d : deployed) (l : list hstep) : bool :=
   match l with
   | [] => true
   | h :: r =>
-      match step ct self (h_env h) (h_op h) s, h_out h with
-      | Ok (s', ms), Done b p =>
+      match dstep self (h_env h) (h_act h) d, h_out h with
+      | Ok (d', ms), Done b p =>
           (burned_of ms =? b) && (pooled_of ms =? p)
           && match h_obs h with
-             | Some o => obs_eqb (obs_of ct s') o
-             | None => obs_eqb (obs_of ct s') (obs_of ct s)
+             | Some o => obs_eqb (obs_of d') o
+             | None => obs_eqb (obs_of d') (obs_of d)
              end
-          && replay ct self s' r
+          && replay self d' r
       | Err, Failed =>
-          match h_obs h with Some _ => false | None => replay ct self s r end
+          match h_obs h with Some _ => false | None => replay self d r end
       | _, _ => false
       end
   end.
 
-Definition boot (h : history) : result state :=
-  if h_migrated h
-  then do s <- instantiate Base (h_time0 h) (h_sender_is_contract h) (h_funds0 h) (h_minter h) (h_info0 h);
-       Ok (migrate_base_to_updatable s)
-  else instantiate (h_ct h) (h_time0 h) (h_sender_is_contract h) (h_funds0 h) (h_minter h) (h_info0 h).
+Definition boot (h : history) : result deployed :=
+  do s <- instantiate (h_ct h) (h_time0 h) (h_sender_is_contract h) (h_funds0 h) (h_minter h) (h_info0 h);
+  let d0 := match h_cw2 h with
+            | Some nv => mkDep (h_ct h) (h_admin h) (fst nv) (snd nv) s
+            | None => mkDep (h_ct h) (h_admin h) (name_of (h_ct h)) CUR_VERSION s
+            end in
+  if h_migrated h then migrate_to_updatable (h_time0 h) d0 else Ok d0.
 
 Definition history_check (h : history) : bool :=
   match boot h, h_init h with
-  | Ok s, Some o => obs_eqb (obs_of (h_ct h) s) o && replay (h_ct h) (h_self h) s (h_steps h)
+  | Ok d, Some o => obs_eqb (obs_of d) o && replay (h_self h) d (h_steps h)
   | Err, None => match h_steps h with [] => true | _ => false end
   | _, _ => false
   end.
